@@ -109,6 +109,25 @@ pub fn judge(h: &History, st: &mut Stats) -> Verdict {
                         plen += size;
                     }
                     Outcome::Err(_) | Outcome::Panic(_) => {
+                        // the other operation that encodes a single value with its 16-bit length - the value's own
+                        // `to_bytes()` - refuses it as well (no rendering with a wrapped length exists)
+                        if demanded {
+                            for v in vals.iter().filter(|v| bld::must_refuse(v)).take(1) {
+                                let data = bld::content(v);
+                                match crate::engine::guard(|| bld::to_bytes_val(v, &data).map(|b| b.len())) {
+                                    Ok(Ok(n)) => {
+                                        return Err(Fail::new(
+                                            "oversize-value-rendered",
+                                            shape_h(h),
+                                            "WriteToHeader::to_bytes on the value of a refused write",
+                                            format!("Err: op {} carries a single TLV value / byte slice of {} bytes", i, data.len()),
+                                            format!("Ok({} bytes)", n),
+                                        ))
+                                    }
+                                    _ => {}
+                                }
+                            }
+                        }
                         if !demanded && 16 + plen + size <= 65551 {
                             // an unexpected refusal: nothing for C09 to judge, but the case exercised nothing
                             st.discard();
